@@ -1,4 +1,4 @@
-import ShmVerif.Proof.FreeListInit
+import ShmVerif.Proof.FreeListConc
 /-!
   C01 — a shared-memory buffer never has two owners at once.
 
@@ -10,7 +10,11 @@ import ShmVerif.Proof.FreeListInit
   * `c01_aba_witness`     : the unrestricted statement is FALSE of the model (and of the code: the same schedule is replayed
                             on the real pop/push on every run, known finding F1): a concrete 2-thread schedule after which
                             `head` designates a slot that another thread still holds.
-  The full concurrent statement restricted to ABA-free interleavings is NOT proved (see DESIGN.md §5 C01): the claim is partial.
+  * `c01_exclusive_noaba` : EVERY interleaving (any number of threads / slots / operations, one step = one shared-memory
+                            access) in which no head CAS succeeds on a stale snapshot: at every step the slots of the free
+                            queue and the slots owned by the threads (held, or in transit between the CAS and the
+                            bookkeeping) are exactly the `n` slots, each exactly once. Together with the witness: the ONLY
+                            way two owners can arise is the stale-head CAS of finding F1.
 -/
 namespace Props.C01
 open FreeListC
@@ -95,6 +99,40 @@ theorem c01_exclusive_seq (n : Nat) (hn : 0 < n) (progs : List (List Op)) (ts : 
   refine ⟨free, h.chain, h.head, h.nodup, by rw [h.total, hlen], ?_⟩
   intro i hi
   rw [← hlen]; exact h.bound i hi
+
+/-- Exclusive ownership for EVERY interleaving without a stale-head CAS (ghost flag `aba`, set by the model exactly when a
+    head CAS succeeds although another head CAS succeeded since the popper loaded `head`): the free queue `Q`
+    (from `head` to `tail`) and the slots the threads own partition `{0 … n-1}`. -/
+theorem c01_exclusive_noaba (n : Nat) (hn : 0 < n) (progs : List (List Op)) (sched : List Nat) :
+    let s := run (prime (init n progs)) sched
+    s.aba = false →
+    ∃ Q, Q.head? = some s.head ∧ Q.getLast? = some s.tail ∧
+      (Q ++ s.ths.flatMap ownedC).Nodup ∧ (Q ++ s.ths.flatMap ownedC).length = n ∧
+      (∀ i ∈ Q ++ s.ths.flatMap ownedC, i < n) := by
+  intro s ha
+  obtain ⟨Q, I⟩ := run_cinv n sched _ _ (cinv_init n hn progs) ha
+  have P := I.partition
+  refine ⟨Q, I.head, I.last, P.nodup_iff.mpr List.nodup_range, by rw [P.length_eq, List.length_range], ?_⟩
+  intro i hi
+  exact List.mem_range.mp (P.mem_iff.mp hi)
+
+/-- in such an interleaving nobody is ever handed (or holds) a slot that is still in the free queue, and no two
+    threads hold the same slot -/
+theorem c01_no_two_owners_noaba (n : Nat) (hn : 0 < n) (progs : List (List Op)) (sched : List Nat) :
+    let s := run (prime (init n progs)) sched
+    s.aba = false →
+    ∀ (t t' : Nat) (th th' : Th), t ≠ t' → s.ths[t]? = some th → s.ths[t']? = some th' →
+      ∀ x ∈ ownedC th, x ∉ ownedC th' := by
+  intro s ha t t' th th' hne h h' x hx
+  obtain ⟨Q, I⟩ := run_cinv n sched _ _ (cinv_init n hn progs) ha
+  exact I.owned_disjoint hne h h' hx
+
+-- non-vacuity: a genuinely interleaved run (two threads alternate access by access) that stays ABA-free
+set_option maxRecDepth 100000 in
+example :
+    let s := run (prime (init 4 [[.pop, .push 0, .pop], [.pop, .pop, .push 1]])) ((List.replicate 40 [0, 1]).flatten)
+    s.aba = false ∧ (s.ths.map (·.held)) = [[3], [1]] ∧ s.head = 0 ∧ s.tail = 2 ∧ s.size = 2 := by
+  decide
 
 /-- The ABA schedule (finding F1). Thread 0 stalls in `pop` between reading `head.next` and the head CAS; thread 1
     performs pop, pop, push, pop, push, pop; thread 0's CAS then succeeds with a stale `next`:
